@@ -76,6 +76,11 @@ type Ctx struct {
 	// mean allocating a timer and a closure per request.
 	timer *time.Timer
 	armed bool
+
+	// gotHeaders records that the response's header block is complete, so that
+	// a later block on the stream is read as trailers. It belongs to the read
+	// loop, which holds lck while it looks.
+	gotHeaders bool
 }
 
 // acquire takes ownership of the Ctx for the connection. It reports false once
@@ -205,6 +210,7 @@ func acquireCtx(req *fasthttp.Request, res *fasthttp.Response) *Ctx {
 	ctx.resolved = false
 	ctx.finished = false
 	ctx.armed = false
+	ctx.gotHeaders = false
 
 	ctx.conn.Store(nil)
 
